@@ -4,7 +4,8 @@
 (* %-escapes in every name position, and near-miss corruptions (operation x   *)
 (* relative position), and rings of declarations that refer to one another    *)
 (* (mixins, aliases, unions, fields, calls, subscriptions, view calls, foreign *)
-(* keys).  One construct is varied at a time; the harness puts it into a      *)
+(* keys), and one attribute reaching one element from two sources with values *)
+(* of different kinds.  One construct is varied at a time; the harness puts it into a      *)
 (* minimal program.                                                           *)
 EXTENDS Integers, Sequences, TLC, Json
 
@@ -33,6 +34,15 @@ Ops == {"dropline", "dupline", "swaplines", "truncline", "truncbyte", "indentmor
 RingRels == {"mixin", "alias", "aliasseq", "union", "field", "fieldseq", "call", "subscribe", "viewcall", "tablefk"}
 RingSizes == 1..4
 
+\* one attribute given to one element by two sources, with a value of a different kind on each side: where a
+\* declaration can be attributed twice (a collector statement, a re-declaration, an annotation beside an attribute,
+\* a nested REST block, an event and its subscriber) x the attribute (a plain one, or `patterns`, which `~x` writes)
+\* x the kind of value on each side
+MergePositions == {"collector-ep", "collector-call", "collector-rest", "collector-pubsub", "app-again", "ep-again",
+                   "type-again", "rest-again", "annotation", "rest-nested", "event-sub", "view-again", "mixin"}
+MergeNames == {"owner", "patterns"}
+ValueKinds == {"string", "list", "empty", "nested", "modifier", "multiline", "none"}
+
 Init == phase = 0
 Next ==
   \/ /\ phase = 0 /\ phase' = 1
@@ -47,5 +57,8 @@ Next ==
   \/ /\ phase = 3 /\ phase' = 4
      /\ \A r \in RingRels, n \in RingSizes, f \in BOOLEAN :
           PrintT(<<"SCN", ToJson([kind |-> "ring", rel |-> r, n |-> n, files |-> f])>>)
+  \/ /\ phase = 4 /\ phase' = 5
+     /\ \A pos \in MergePositions, n \in MergeNames, a \in ValueKinds, b \in ValueKinds :
+          PrintT(<<"SCN", ToJson([kind |-> "attrmerge", pos |-> pos, name |-> n, first |-> a, second |-> b])>>)
 Spec == Init /\ [][Next]_vars
 =============================================================================
